@@ -1,17 +1,28 @@
 """
 C20 — schema paths match instance paths; partial validation/decoding equals the full result.
 
-Correspondence (implementation vs Lean models XsVerif/Model/SchemaPaths.lean + Model/Lazy.lean, driver drv_c20):
+Correspondence (implementation vs Lean models XsVerif/Model/SchemaPaths.lean + Model/PathEval.lean + Model/Lazy.lean,
+driver drv_c20):
   * `schema.findall(path)` for every element path of the document vs `findAll` on the introspected schema graph
     (children, substitution members, wildcards with the names they admit, global elements in XPath order),
   * `schema.get_element(tag, '/root/*')` and `get_element(tag, full path)` vs the port with its fall-backs,
+  * every generated path form (child / `*` / `//` steps, positional predicates, absolute / relative) evaluated in the
+    model on the instance tree (`selC`) vs `resource.iterfind` — same elements in the same order — and, for the forms
+    without `//`, evaluated in the model on the schema graph (`findAllP`, SchemaFindParser's predicate rule) vs
+    `schema.findall` of the schema path,
   * `iter_errors(doc, path='*' | '*/*')` and `iter_errors(doc, max_depth=k)` vs the compositional validator of the
     model instantiated with the error segments measured on the full run.
 Property evaluation on the real code (independent of Lean):
   * find(path) has the name and type of the declaration recorded by `validation_hook` for that element
     (all spellings: Clark, prefixed, default namespace, with and without positional predicates),
-  * errors/data of `path=`-selected parts == the matching part of the full result,
+  * get_element(tag, path) — the lookup of the path-driven runs — is that declaration too (same spellings),
+  * errors/data of `path=`-selected parts == the matching part of the full result, for every sampled element in the
+    path forms abs, abs+positions, rel, rel+positions, last-step position, `//n`, `.//n`, `/r//n`, `c//n`, `*/…/n`,
+    `…/*`, and for every substitution-group member of the substitution family in all of them,
   * errors/data with max_depth == the full result above the cut.
+Known deviations are matched only through an exact prediction: the fall-back rule of get_element applied by the
+harness to schema.find (`port_get_element`, never a call of get_element) names the declaration each selected element
+is processed with, `errors_as` replays the loop's own call with it, and the run must report exactly that.
 """
 from __future__ import annotations
 
@@ -27,14 +38,17 @@ from harness.props import c06 as C6
 PROPS = 'XsVerif.Props.C20'
 AUDIT = 'XsVerif.Audit.C20'
 LEAN_TARGETS = ['XsVerif.Props.C20', 'drv_c20']
-LEANCHECK = ['XsVerif.Model.SchemaPaths', 'XsVerif.Model.Lazy', 'XsVerif.Lemmas.Lazy', 'XsVerif.Props.C20']
-RULE = ('a case is one (generated schema, generated document, element path spelling | path= selection | max_depth) — '
-        'schemas with local declarations, references, a substitution group, wildcard tails, xsi:type-extensible named '
-        'types and the same local name with different types in different contexts; non-trivial = the path has >= 2 '
-        'steps, or the selected part / the cut separates errors, or the step goes through a reference, a substitution '
-        'member, a wildcard or an xsi:type; distinct by canonical JSON')
-TRUSTED = ['elementpath evaluates the XPath; the model covers paths of child steps (names, `*`), the predicates and the '
-           'other axes are exercised on the real code only',
+LEANCHECK = ['XsVerif.Model.SchemaPaths', 'XsVerif.Model.PathEval', 'XsVerif.Model.Lazy', 'XsVerif.Lemmas.Lazy',
+             'XsVerif.Lemmas.PathEval', 'XsVerif.Props.C20']
+RULE = ('a case is one (generated schema, generated document, element path spelling | path form | path= selection | '
+        'max_depth) — schemas with local declarations, references, substitution groups (members with restricted, '
+        'extended and unrelated simple types), wildcard tails, xsi:type-extensible named types and the same local name '
+        'with different types in different contexts; non-trivial = the path has >= 2 steps, or the selected part / the '
+        'cut separates errors, or the step goes through a reference, a substitution member, a wildcard or an xsi:type; '
+        'distinct by canonical JSON')
+TRUSTED = ['elementpath evaluates the XPath: for the generated path forms its selection on the instance (elements and '
+           'order) is compared with the in-model evaluator on every case; on the schema the forms with a `//` step are '
+           'exercised on the real code only (schema-side descendant iteration is not modelled)',
            'the abstract validator of the model is instantiated from error segments measured on the real full run']
 ASSUMPTIONS = ['errors that depend on document-wide tables (ID/IDREF, key/keyref resolution) are document-level and are left '
                'out when a part or a depth-limited run is compared with the whole',
@@ -42,7 +56,11 @@ ASSUMPTIONS = ['errors that depend on document-wide tables (ID/IDREF, key/keyref
                '"single decoding process" rule (only for global elements, then all namespaces in scope) and are not compared',
                'the claim about find(path) is made for valid documents; invalid ones are explored too (same rule)',
                'findings repaired in /repo have no rule (C20-F2 d54abee; of C20-F3 the case "prefix declared on the selected '
-               'element itself", c3a1309): a recurrence is a violation']
+               'element itself", c3a1309): a recurrence is a violation',
+               'the parts of a nested selection (`//d` with d inside d) are compared element by element: the inner part is '
+               'reported twice; `a//b` selections are taken in the order elementpath yields them (not document order)',
+               'spurious nodes that a run leaves in the schema\'s XPath tree (finding C20-F6) are removed by the harness '
+               'before every lookup and run, so that a case never depends on the previous ones']
 
 FINDINGS_FILE = VERIF / 'notes' / 'findings' / 'C20.json'
 XSI_TYPE = '{%s}type' % L.XSI
@@ -491,9 +509,12 @@ def forms_for(doc: Doc, nid: int) -> list:
 class Partial:
     """path-driven validation / decoding of one document against the matching part of its full result"""
 
-    def __init__(self, ctx: Ctx, spec, doc: Doc, xml: bytes, base: dict):
+    def __init__(self, ctx: Ctx, spec, doc: Doc, xml: bytes, base: dict, reqs: Optional[list] = None,
+                 pend: Optional[list] = None):
         from xmlschema.utils.etree import etree_getpath
         self.ctx, self.spec, self.doc, self.xml, self.base = ctx, spec, doc, xml, base
+        self.reqs, self.pend = reqs, pend
+        self.graph = None
         self.eg, self.schema = doc.eg, doc.schema
         self.scope = L.in_scope(self.eg.tree)
         self.root_scope = dict(self.scope[0])
@@ -766,6 +787,40 @@ class Partial:
         else:
             ctx.failure('decoded data of the selected part differs from the matching part of the full result', case, detail)
 
+    def model_tie(self, case: dict, P: dict, path: str, nsx: Any, real: list) -> None:
+        """in-model evaluation of the path (Model/PathEval.lean) against the real machinery: `selI` on the instance
+        tree vs resource.iterfind (same elements, same order); `findAllP` on the schema graph vs schema.findall of the
+        schema path (child-step forms; first occurrence of a declaration kept)"""
+        if self.reqs is None:
+            return
+        eg = self.eg
+        steps = [{'desc': ax == 'desc', 'name': None if nm_ == '*' else nm_, 'pos': ps} for ax, nm_, ps in P['steps']]
+        if not (path.startswith('.//') and real == []):        # (finding C20-F5 is judged by the caller)
+            self.reqs.append({'op': 'select', 'tree': eg.tree, 'abs': P['abs'], 'steps': steps})
+            self.pend.append(('select', dict(case, api='iterfind'), real, None))
+        if any(st['desc'] for st in steps):
+            self.ctx.count('schema-path-not-modelled:descendant-step')
+            return
+        if self.graph is None:
+            universe = sorted({n['tag'] for _, _, _, n in eg.flat} | {g.name for g in self.schema} |
+                              {('{%s}zz' % L.TNS) if self.spec.tns else 'zz'})
+            self.graph = schema_graph(self.schema, universe)
+        graph, gid = self.graph
+        ssteps = steps if P['abs'] else [{'desc': False, 'name': eg.res.root.tag, 'pos': None}] + steps
+        unpollute(self.schema)
+        try:
+            found = self.schema.findall(abs_schema_path(eg.res.root.tag, path), nsx)
+        except Exception as ex:  # noqa
+            self.ctx.failure('schema.findall raised on a generated path', case, repr(ex))
+            return
+        ids: list = []
+        for x in found:
+            i = gid.get(id(x), -1)
+            if i not in ids:
+                ids.append(i)
+        self.reqs.append(dict(graph, op='findallp', steps=ssteps))
+        self.pend.append(('findallp', dict(case, api='findall'), ids, None))
+
     def one_form(self, nid: int, label: str, P: dict, form: str, data: bool = True) -> None:
         """one generated path form that selects (at least) element nid"""
         ctx, eg = self.ctx, self.eg
@@ -779,6 +834,7 @@ class Partial:
         except Exception as ex:  # noqa
             ctx.failure('resource.iterfind raised on a generated path', case, repr(ex))
             return
+        self.model_tie(case, P, path, nsx, real)
         if real != denoted and sorted(real) == denoted and len(set(real)) == len(real):
             # the same elements, not in document order: `a//b` is evaluated context node by context node (the children
             # of a node before those of its earlier descendants); the parts are then processed in that order
@@ -809,7 +865,7 @@ def check_partial(ctx: Ctx, spec, doc: Doc, xml: bytes, reqs: list, pend: list, 
     depth_max = max(eg.depth.values())
     static_of, created_of = C6.static_lookup(schema, eg)
     ns = {'': L.TNS} if spec.tns else None
-    pt = Partial(ctx, spec, doc, xml, base)
+    pt = Partial(ctx, spec, doc, xml, base, reqs, pend)
     # select-all paths: model + property
     for k in (1, 2):
         if depth_max < k:
@@ -1016,6 +1072,16 @@ def compare(ctx: Ctx, reqs: list, pend: list, drv: Optional[Driver]) -> None:
         elif kind == 'get_element':
             if m['id'] != real:
                 ctx.mismatch('get_element', case, real, m['id'])
+        elif kind == 'select':
+            ctx.count('model-tie:iterfind')
+            if m['ids'] != real:
+                ctx.mismatch('iterfind (in-model path evaluation on the instance tree)', case, real, m['ids'])
+            if not m['chains_match']:
+                ctx.mismatch('model: a selected chain does not match the path pattern', case, None, m)
+        elif kind == 'findallp':
+            ctx.count('model-tie:findall-path-forms')
+            if m['ids'] != real:
+                ctx.mismatch('findall (in-model path evaluation on the schema graph)', case, real, m['ids'])
         elif kind == 'part':
             got = [list(x) for x in real['got']]
             model = [list(x) for x in non_stateful([real['table'][i] for i in m['part']])]
@@ -1383,6 +1449,56 @@ def run_one(ctx: Ctx, drv: Optional[Driver], xsd: str, xml: bytes, only: Optiona
     compare(ctx, reqs, pend, drv)
 
 
+WIT_XSD = '''<xs:schema xmlns:xs="http://www.w3.org/2001/XMLSchema">
+ <xs:element name="h" type="xs:int"/><xs:element name="m" type="xs:short" substitutionGroup="h"/>
+ <xs:element name="s"><xs:complexType><xs:sequence><xs:element ref="h" maxOccurs="unbounded"/></xs:sequence></xs:complexType></xs:element>
+ <xs:element name="r"><xs:complexType><xs:sequence>
+  <xs:element name="a"><xs:complexType><xs:sequence><xs:element name="x" type="xs:int"/></xs:sequence></xs:complexType></xs:element>
+  <xs:element name="b"><xs:complexType><xs:sequence><xs:element name="x" type="xs:short"/></xs:sequence></xs:complexType></xs:element>
+ </xs:sequence></xs:complexType></xs:element>
+</xs:schema>'''
+
+
+def lean_witnesses(ctx: Ctx) -> None:
+    """the concrete witnesses of the Lean `_counterexample` theorems (schema wS of Props/C20.lean) on the real code"""
+    import xmlschema
+    schema = xmlschema.XMLSchema(WIT_XSD)
+    gm, gh = schema.elements['m'], schema.elements['h']
+    base = {'xsd': WIT_XSD, 'family': 'lean-witness'}
+    # find_subst_counterexample: find('/s/m') is the head's reference; get_element with the `*` path returns it too
+    case = dict(base, api='find', path='/s/m', xml='<s><m>70000</m></s>')
+    ctx.case(case, True, 'lean-witness')
+    d = schema.find('/s/m')
+    if d is not None and d.name == 'h' and d.type is gh.type and schema.get_element('m', '/s/*') is d:
+        ctx.known_hit('C20-F1')
+    else:
+        ctx.count('lean-witness:find_subst_counterexample-no-longer-reproduces')
+    # getElement_name: the name branch never answers with another name (this is what seeded change C20-2 broke)
+    ge = schema.get_element('m', '/s/m')
+    if ge is not gm:
+        ctx.failure('schema.get_element(tag, path ending with the name) returns a declaration with another name',
+                    dict(case, api='get_element', tag='m'), {'kind': 'get_element', 'found': repr(ge), 'governing': repr(gm)})
+    errs = [C6.canon_err(e)[1] for e in schema.iter_errors('<s><m>70000</m></s>', path='/s/m')]
+    if len(errs) != 1:
+        ctx.failure('errors of the selected part(s) differ from the matching part of the full result',
+                    dict(case, api='iter_errors(path)'), {'kind': 'partial', 'got': errs, 'want': ['value must be -2^15 <= x < 2^15']})
+    # paths_agree_star_counterexample: '/r/*/x' resolves to a's x (int) for the x inside b (short)
+    xml = '<r><a><x>1</x></a><b><x>70000</x></b></r>'
+    case = dict(base, api='iter_errors(path)', path='*/x', xml=xml)
+    ctx.case(case, True, 'lean-witness')
+    lk = schema.get_element('x', '/r/*/x')
+    gb = schema.find('/r/b/x')
+    full = [C6.canon_err(e)[1] for e in schema.iter_errors(xml)]
+    part = [C6.canon_err(e)[1] for e in schema.iter_errors(xml, path='*/x')]
+    if lk is not None and lk.name == 'x' and lk.type is not gb.type and len(full) == 1 and part == []:
+        ctx.known_hit('C20-F4')
+    elif part != full:
+        ctx.failure('errors of the selected part(s) differ from the matching part of the full result', case,
+                    {'kind': 'partial', 'got': part, 'want': full})
+    else:
+        ctx.count('lean-witness:paths_agree_star_counterexample-no-longer-reproduces')
+
+
 def run(ctx: Ctx, driver_ok: bool) -> None:
     ctx.known = list(ctx.known) + [e for e in load_findings() if e.get('property') == 'C20']
     drv = Driver('drv_c20') if driver_ok else None
@@ -1391,6 +1507,7 @@ def run(ctx: Ctx, driver_ok: bool) -> None:
         for f in sorted(d.glob('*.json')):
             obj = json.loads(f.read_text())
             run_one(ctx, drv, obj['xsd'], obj['xml'].encode(), only={'family': obj['family']} if obj.get('family') else None)
+    lean_witnesses(ctx)
     twin_namespaces(ctx)
     subst_family(ctx, drv)
     family(ctx, drv)
